@@ -88,17 +88,25 @@ def attributed (reg : Registry) (lease : Option MAC) (cid : Bytes) (ip : IP) : O
   ((owner reg (.cid cid)).orElse fun _ => byAddress reg ip).orElse fun _ =>
     lease.bind fun m => owner reg (.mac m)
 
-/-- The settings in force for a request attributed to `c`, given the global ones. -/
+/-- The settings in force for a request attributed to `c`, given the global
+ones: name and tags say who it is; the client's own filtering / safe-search
+(switch AND engine) / safe-browsing / parental settings replace the global ones
+exactly when it opts out of them, its own blocked services exactly when it opts
+out of those; everything else is as it was. -/
 def effective (c : Option Client) (g : Settings) : Settings :=
   match c with
   | none => g
   | some c =>
     { clientName := c.name
+      clientTags := c.tags
       svc := if c.useOwnBlockedServices then c.svc else g.svc
       filteringEnabled := if c.useOwnSettings then c.filteringEnabled else g.filteringEnabled
       safeSearchEnabled := if c.useOwnSettings then c.safeSearchEnabled else g.safeSearchEnabled
+      clientSafeSearch := if c.useOwnSettings then c.safeSearch else g.clientSafeSearch
       safeBrowsingEnabled := if c.useOwnSettings then c.safeBrowsingEnabled else g.safeBrowsingEnabled
-      parentalEnabled := if c.useOwnSettings then c.parentalEnabled else g.parentalEnabled }
+      parentalEnabled := if c.useOwnSettings then c.parentalEnabled else g.parentalEnabled
+      protectionEnabled := g.protectionEnabled
+      untouched := g.untouched }
 
 /-! ### the registry under the operations the implementation accepted -/
 
@@ -146,8 +154,9 @@ def seenOf : Option Client → Seen
 
 /-- The global settings every `apply` probe starts from. -/
 def globalSettings : Settings :=
-  { clientName := [], svc := 0, filteringEnabled := true, safeSearchEnabled := false,
-    safeBrowsingEnabled := true, parentalEnabled := false }
+  { clientName := [], clientTags := 0, svc := 0, filteringEnabled := true, safeSearchEnabled := false,
+    clientSafeSearch := 0, safeBrowsingEnabled := true, parentalEnabled := false,
+    protectionEnabled := true, untouched := true }
 
 /-- What the registry says the probe must show. -/
 def expected (w : World) : Probe → Seen
